@@ -71,8 +71,15 @@ func runCheck(t *testing.T, id, level string, fn func(r *mc.Report, t *testing.T
 // bubble runs f inside a synctest bubble and converts the panic synctest
 // raises when goroutines are still blocked at the end into a return value.
 func bubble(t *testing.T, f func()) (leak string) {
+	var inner any
 	defer func() {
 		if r := recover(); r != nil {
+			if inner != nil {
+				// f itself panicked; the bubble then complains about the goroutines f left blocked. The
+				// first panic is the one that matters (it used to be lost here, leaving process-wide hooks
+				// of the aborted execution installed: the cause of the "operation blocked" give-ups, §10)
+				panic(inner)
+			}
 			s := fmt.Sprint(r)
 			if strings.Contains(s, "blocked goroutines remain") || strings.Contains(s, "deadlock") {
 				leak = s
@@ -81,12 +88,11 @@ func bubble(t *testing.T, f func()) (leak string) {
 			panic(r)
 		}
 	}()
-	var inner any
 	synctest.Test(t, func(t *testing.T) {
 		// a panic inside the bubble's goroutine would abort the test binary: carry it out
 		defer func() {
 			if r := recover(); r != nil {
-				inner = r
+				inner = fmt.Sprintf("%v\n%s", r, debug.Stack())
 			}
 		}()
 		f()
